@@ -68,9 +68,9 @@ class _Scn(object):
 
 SCENARIOS = [
     _Scn('c11.conn', ('randmio_und_connected', 'randmio_dir_connected', 'latmio_und_connected', 'latmio_dir_connected'),
-         {'quick': 5000, 'thorough': 350000}, connected=True, invalid_frac=0.15),
-    _Scn('c11.cost', ('latmio_und', 'latmio_dir', 'latmio_und_connected', 'latmio_dir_connected'), {'quick': 3000, 'thorough': 200000}),
-    _Scn('c11.mask', ('randomize_graph_partial_und',), {'quick': 2000, 'thorough': 150000}),
+         {'quick': 15000, 'thorough': 350000}, connected=True, invalid_frac=0.15),
+    _Scn('c11.cost', ('latmio_und', 'latmio_dir', 'latmio_und_connected', 'latmio_dir_connected'), {'quick': 9000, 'thorough': 200000}),
+    _Scn('c11.mask', ('randomize_graph_partial_und',), {'quick': 6000, 'thorough': 150000}),
 ]
 
 RULE = ('one run = one call of a constrained rewiring routine with every draw decided by the seeded SimRNG: the four *_connected routines on '
